@@ -1,4 +1,10 @@
 """C19: size-limit requests are padded to exactly limit+delta and the limit is sharp (engine N)."""
+import json
+import os
+import subprocess
+import sys
+
+import vcheck
 import vcheck_c02 as G
 
 RULE = ("an evaluation is one generated size-limit test case (unary, client stream or half-duplex bidi; 1-3 request messages with different initial padding; per message an "
@@ -10,5 +16,50 @@ RULE = ("an evaluation is one generated size-limit test case (unary, client stre
 
 
 def main(args, cfg):
+    """Two parts: (1) generated size-limit suites through the whole system (run_gen), (2) the reference client's
+    receive limit driven directly (standard worker flow, config C19L, reported as C19)."""
+    here = os.path.dirname(os.path.abspath(__file__))
+    part2 = [sys.executable, os.path.join(here, "vcheck.py"), "C19L"]
+    if args.replay:
+        try:
+            scen = json.load(open(args.replay)).get("scenario", "")
+        except Exception:  # noqa: BLE001
+            scen = ""
+        if scen == "c19-clientlimit":
+            return subprocess.call(part2 + ["--replay", args.replay])
+        return run_part1(args, None)
+    cmd = part2 + ["--tier", args.tier]
+    if args.seed is not None:
+        cmd += ["--seed", str(args.seed)]
+    if args.seconds is not None:
+        cmd += ["--seconds", str(args.seconds)]
+    if args.workers is not None:
+        cmd += ["--workers", str(args.workers)]
+    if args.no_evidence:
+        cmd += ["--no-evidence"]
+    rc2 = subprocess.call(cmd)
+    sys.stdout.flush()
+    extra = None
+    if not args.no_evidence:
+        part = os.path.join(G.VERIF, "work", "C19L" + os.environ.get("VERIF_WORK_SUFFIX", ""), "evidence_part.json")
+        try:
+            pe = json.load(open(part))
+            extra = {"client_receive_limit_part": {"evaluations": pe["coverage"]["evaluations"], "rule": pe["coverage"]["rule"], "probes": pe["coverage"]["probes"],
+                                                   "faults_fired": pe["coverage"]["faults_fired"], "simulated_seconds": pe["coverage"]["simulated_seconds"],
+                                                   "runs_per_hour": pe["coverage"]["runs_per_hour"], "abstract_cover_count": pe["coverage"]["abstract_cover_count"],
+                                                   "known_findings_seen": pe["coverage"]["known_findings_seen"], "samples": pe["coverage"]["samples"][:2],
+                                                   "components_real": pe["coverage"]["components_real"], "components_stubbed": pe["coverage"]["components_stubbed"],
+                                                   "assumptions": pe["assumptions"], "violations": pe["violations"]}}
+        except Exception as e:  # noqa: BLE001
+            if rc2 == 0:
+                vcheck.infra("client-limit part left no evidence: %s" % e)
+    rc1 = run_part1(args, extra)
+    if 2 in (rc1, rc2) and 1 not in (rc1, rc2):
+        return 2
+    return max(rc1, rc2)
+
+
+def run_part1(args, extra):
     return G.run_gen(args, "C19", "size", (("server", "referenceserver"), ("client", "referenceclient")), RULE,
-                     ["the mirrored clause for the reference client's receive limit is only covered by the embedded client_message_size suite inside C01 (the repository itself notes that response sizes cannot be set exactly)"])
+                     ["the reference client's receive limit is decided by the second part (coverage.client_receive_limit_part): real reference client and server driven directly, limits around the measured response sizes"],
+                     extra_coverage=extra)
